@@ -120,6 +120,10 @@ pub struct Scn {
     pub clients: Vec<Client>,
     pub operator: Vec<OOp>,
     pub faults: Vec<PF>,
+    /// clients do not wait for the tracker to come up: their first datagrams go out the instant a socket is bound,
+    /// while the tracker may still be starting its other threads
+    #[serde(default)]
+    pub early: bool,
     /// privileges.drop_privileges: the socket workers rendezvous at a barrier after binding (the chroot itself is not simulated)
     #[serde(default)]
     pub drop_priv: bool,
@@ -352,7 +356,14 @@ fn client_main(idx: usize, scn: Arc<Scn>, col: Arc<Mutex<Collected>>, cids: Arc<
         let pick = if net.pick == 0 { Pick::Hash } else { Pick::Index(net.pick as usize - 1) };
         let n = if net.dup { 2 } else { 1 };
         for k in 0..n {
-            let id = sudp::inject(bytes.clone(), src, pick, net.delay_ms as u64 * 1_000_000 + k * 1_000);
+            let mut id = sudp::inject(bytes.clone(), src, pick, net.delay_ms as u64 * 1_000_000 + k * 1_000);
+            let mut tries = 0;
+            while id.is_none() && scn.early && engine::now() == 0 && tries < 400 {
+                // no socket bound yet: a real client's datagram would be retransmitted
+                engine::yield_now();
+                tries += 1;
+                id = sudp::inject(bytes.clone(), src, pick, net.delay_ms as u64 * 1_000_000 + k * 1_000);
+            }
             if let Some(id) = id {
                 let mut g = col.lock().unwrap();
                 if net.spoof.is_some() && src != addr {
@@ -486,7 +497,9 @@ fn sim_root(scn: Arc<Scn>, col: Arc<Mutex<Collected>>) {
         col2.lock().unwrap().run_returned = Some((t, r.map_err(|e| format!("{:#}", e))));
     });
     // give the tracker a moment to bind its sockets
-    thread::sleep(Duration::from_millis(5));
+    if !scn.early {
+        thread::sleep(Duration::from_millis(5));
+    }
     let cids = Arc::new(Mutex::new(vec![(None, None); scn.clients.len()]));
     let mut hs = Vec::new();
     for i in 0..scn.clients.len() {
@@ -663,6 +676,7 @@ impl Harness for UdpSys {
         let faulty_net = prop == "C12" || (prop != "C19" && r.chance(400));
         let n_clients = if c18 { 2 } else { r.range(2, if tier == Tier::Quick { 5 } else { 8 }) as usize };
         let n_torrents = r.range(1, 4) as u8;
+        let early = prop != "C19" && !c18 && r.chance(if prop == "C11" { 300 } else { 120 });
         let mut clients = Vec::new();
         for i in 0..n_clients {
             let v6 = match layout % 4 {
@@ -673,6 +687,10 @@ impl Harness for UdpSys {
             };
             let n_ops = r.range(4, if tier == Tier::Quick { 16 } else { 30 }) as usize;
             let mut script = vec![COp::Connect { net: NetF::default() }];
+            if early {
+                // straight after the connect: an announce the access list may forbid
+                script.push(COp::Ann { t: access_list.first().copied().unwrap_or(0), ev: 1, left: 1, want: 1, port: 1000 + i as u16, pid: i as u8, cid: Cid::Cur, ext: 0, net: NetF::default() });
+            }
             let mut netf = |r: &mut Prng| -> NetF {
                 if !faulty_net || r.chance(600) {
                     return NetF { pick: if r.chance(300) { r.range(1, 3) as u8 } else { 0 }, ..Default::default() };
@@ -720,6 +738,16 @@ impl Harness for UdpSys {
                 script.push(op);
             }
             clients.push(Client { v6, ac: r.below(2) as u8, h: 10 + i as u16, sport: 2000 + i as u16, wait_ms: *r.pick(&[20u32, 100, 400]), script });
+        }
+        // a burst: thousands of announces (new peers) within one statistics interval, none waiting for its reply
+        let burst = prop == "C12" && r.chance(30);
+        if burst {
+            let v6 = layout % 4 == 2;
+            let mut script = vec![COp::Connect { net: NetF::default() }, COp::Sleep { ms: 50 }];
+            for p in 0..r.range(4200, 6000) {
+                script.push(COp::Ann { t: (p % 3) as u8, ev: 1, left: 1, want: 1, port: 1 + (p % 60000) as u16, pid: (p % 200) as u8, cid: Cid::Cur, ext: 0, net: NetF::default() });
+            }
+            clients.push(Client { v6, ac: 0, h: 60, sport: 2060, wait_ms: 1, script });
         }
         if c18 {
             // worst accepted case: a swarm larger than the limit in the wider family, numwant = limit,
@@ -783,8 +811,8 @@ impl Harness for UdpSys {
             resend_buffer_max_len: *r.pick(&[0usize, 0, 1, 8]),
             access_mode,
             access_list,
-            stats_interval,
-            peer_clients: c20 || r.chance(400),
+            stats_interval: if burst { 5 } else { stats_interval },
+            peer_clients: burst || c20 || r.chance(400),
             exports: c20 || r.chance(200),
             sched_strategy: r.below(4) as u8,
             sched_seed: r.next_u64(),
@@ -795,6 +823,7 @@ impl Harness for UdpSys {
             clients,
             operator,
             faults,
+            early,
             drop_priv: r.chance(300),
         }
     }
